@@ -36,9 +36,10 @@ def run_coro(coro):
 class Driver:
     """a real WebSocket over a scripted server"""
 
-    def __init__(self, script):
+    def __init__(self, script, fail_at=0):
         from baize.asgi import WebSocket
         self.script = list(script)
+        self.fail_at = fail_at
         self.rcalls = 0
         self.fwd = []
         self.got = []
@@ -60,6 +61,8 @@ class Driver:
 
         async def send(msg):
             self.fwd.append(dict(msg))
+            if self.fail_at and len(self.fwd) == self.fail_at:
+                raise OSError("connection lost")
 
         self.ws = WebSocket({"type": "websocket", "path": "/", "headers": []}, receive, send)
 
@@ -165,6 +168,8 @@ def property_clauses(script, name, args, pre, post):
     if post["rpos"] > disc_pos:
         bad.append("receive() issued to the server after a disconnect was delivered")
     raised = post["ret"] not in ("ok", "connect", "disconnect", "text", "bytes")
+    if post["ret"] == "OSError":   # the server's send() failed: the message was handed over, nothing else to demand of this call
+        raised = False
     # illegal calls raise without forwarding anything
     if name in ("SendRaw", "SendText", "SendBytes", "Accept"):
         t = args[0] if name == "SendRaw" else SEND_TYPE[name]
@@ -185,6 +190,8 @@ def property_clauses(script, name, args, pre, post):
             bad.append("close() after close is not a silent no-op")
     if name == "Close" and recog(pre["fwd"]) in ("start", "open"):
         if raised or post["fwd"] != pre["fwd"] + ["close"]:
+            pass
+        if post["ret"] not in ("ok", "OSError") or post["fwd"] != pre["fwd"] + ["close"]:
             bad.append("close() in state %s did not forward exactly one close" % recog(pre["fwd"]))
     # frames in order exactly once
     g = post["got"]
@@ -195,6 +202,16 @@ def property_clauses(script, name, args, pre, post):
     if name in ("ReceiveText", "ReceiveBytes", "Receive") and not raised and post["ret"] in ("text", "bytes"):
         if len(g) != len(pre["got"]) + 1:
             bad.append("frame returned twice or not recorded")
+    # every data frame pulled from the server is handed to the application by that very call
+    # (a typed helper given a frame of the other kind raises KeyError - the only way a frame may go unreturned)
+    pulled = [i + 1 for i in range(pre["rpos"], min(post["rpos"], len(script))) if script[i] in ("text", "bytes")]
+    returned_now = g[len(pre["got"]):]
+    if name == "Accept" and (pulled or any(script[i] == "disconnect" for i in range(pre["rpos"], min(post["rpos"], len(script))))):
+        bad.append("accept() consumed a data frame / disconnect event from the server")
+    if pulled and returned_now != pulled and post["ret"] != "KeyError":
+        bad.append("frame(s) %s pulled from the server but not returned to the application (lost)" % pulled)
+    if post["rpos"] - pre["rpos"] > 1:
+        bad.append("one call pulled %d server events" % (post["rpos"] - pre["rpos"]))
     # a legal typed receive of a matching frame returns it
     if name in ("ReceiveText", "ReceiveBytes") and recog(pre["fwd"]) == "open" and not delivered \
             and pre["rpos"] >= 1 and pre["rpos"] < len(script):
@@ -246,10 +263,11 @@ def replay_graph(ctx, g):
     for a, lab, b in g.edges():
         init, path = g.path_to(parent, a)
         script = list(g.state(init)["script"])
+        fail_at = g.state(init)["failAt"]
         exp = project(g.state(b))
         pre_state = g.state(a)
         for vi, (name, args) in enumerate(concretise(lab)):
-            d = Driver(script)
+            d = Driver(script, fail_at)
             calls = []
             for i, (l, dst) in enumerate(path):
                 vs = concretise(l)
@@ -260,7 +278,7 @@ def replay_graph(ctx, g):
             calls.append(name + str(list(args)))
             _, _, pre, _ = d.hist[-1]
             failed = property_clauses(script, name, args, pre, post)
-            case = {"script": script, "calls": calls}
+            case = {"script": script, "calls": calls, "send_fails_at": fail_at}
             if failed:
                 ctx.violation(case, exp, post, failed[0], {"failed_clauses": failed, "module": "WebSocket"})
             elif post != exp:
@@ -285,7 +303,8 @@ def random_traces(ctx, n_traces, length, rnd):
     for t in range(n_traces):
         k = rnd.randint(0, 12)
         script = ["connect"] + [rnd.choice(["text", "bytes"]) for _ in range(k)] + ["disconnect"]
-        d = Driver(script)
+        fail_at = rnd.choice([0, 0, 0, 1, 2, 3, 5])
+        d = Driver(script, fail_at)
         # bias: mostly sensible sessions with a few illegal calls
         weights = [3, 6, 6, 1, 1, 1, 4, 4, 3, 1]
         events = []
@@ -300,7 +319,7 @@ def random_traces(ctx, n_traces, length, rnd):
             events.append({"op": name, "arg": args[0] if args else "", "cs": post["cs"], "ast": post["ast"],
                            "rpos": post["rpos"], "nfwd": len(post["fwd"]), "last": post["fwd"][-1] if post["fwd"] else "",
                            "ngot": len(post["got"]), "ret": post["ret"], "fwd": post["fwd"], "got": post["got"]})
-        traces.append({"script": script, "events": events})
+        traces.append({"script": script, "failAt": fail_at, "events": events})
     return traces
 
 
